@@ -33,7 +33,7 @@ def payloadOf (s : String) : Except String Payload :=
 def addBodyOf (s : String) : Except String AddBody :=
   match s with
   | "docs" => .ok .docs | "empty" => .ok .empty | "bad_line" => .ok .badLine
-  | "read_err" => .ok .readErr | "stall" => .ok .stall
+  | "read_err" => .ok .readErr | "limit_err" => .ok .limitErr | "stall" => .ok .stall
   | _ => .error s!"C24: unknown add body {s}"
 
 def idxOf (s : String) : Except String IdxState :=
@@ -73,6 +73,7 @@ def kindStr : Kind → String
   | .compactJoin => "compact_join" | .compactFailed => "compact_failed"
   | .searchJoin => "search_join" | .searchFailed => "search_failed"
   | .notFound => "not_found" | .methodNotAllowed => "method_not_allowed"
+  | .deleteJoin => "delete_join"
 
 /-- `{"op":"respond","route":{"kind":"hit","endpoint":"search"},"facts":{…}}` →
 `{"status":n,"shape":"error_json","kind":"search_join","well_formed":b}` -/
@@ -82,7 +83,7 @@ def handle (req : Json) : Except String Json := do
   | "respond" =>
     let r ← routeOf (← req.getObjVal? "route")
     let f ← factsOf (← req.getObjVal? "facts")
-    -- `"legacy": true` asks for the service before the 404/405 repair
+    -- `"legacy": true` asks for the service before the repairs 378f311 / 771419c / c4eccfe
     let x := if getBoolD req "legacy" false then respondLegacy r f else respond r f
     return Json.mkObj [("status", x.status), ("shape", shapeStr x.shape), ("kind", kindStr x.kind),
       ("well_formed", wellFormed x)]
